@@ -156,7 +156,8 @@ def assemble(files, charset="bk", timeout=DEFAULT_TIMEOUT, want_symbols=False, r
     h = make_handler(handler) if make_handler else handler
     if timeout:
         old = signal.signal(signal.SIGALRM, _alarm)
-        signal.setitimer(signal.ITIMER_REAL, timeout)
+        # repeating: code under test that swallows the exception once (a bare 'except:' in a retry loop) is interrupted again
+        signal.setitimer(signal.ITIMER_REAL, timeout, 0.25)
     comp = None
     _fired[0] = False
     try:
